@@ -867,10 +867,13 @@ func TestVerif_C19_Zebra(t *testing.T) {
 		}
 		es = append(es, fe.recv)
 		repEntries = append(repEntries, es...)
-		for _, e := range es {
-			c := *e
-			c.TightOnly = true
-			tightRep = append(tightRep, &c)
+		if fe.f.v == 3 || fe.f.v == 6 {
+			// the 16.8 M strings of length <=3: one Quagga-style and one FRR-style flavour, cap==len only
+			for _, e := range es {
+				c := *e
+				c.TightOnly = true
+				tightRep = append(tightRep, &c)
+			}
 		}
 	}
 	// decodeMessageNexthopFromBytes called directly reads a 16-bit nexthop count from the first two bytes and
@@ -914,9 +917,9 @@ func TestVerif_C19_Zebra(t *testing.T) {
 	}
 	if vr.Thorough() {
 		plan.AllocFilter = func(s *c19lib.Seed, e *c19lib.Entry) bool { return e == s.Entries[0] }
-		// Thorough: full alphabet <=3 at the representative flavours with cap==len only, full <=2 and boundary <=4 everywhere.
+		// Thorough: full alphabet <=3 at two flavours (v3, v6/frr8.1) with cap==len only, full <=2 and boundary <=4 everywhere.
 		plan.Groups = []c19lib.StrGroup{
-			{Label: "representative-flavours full<=3 cap==len", Entries: tightRep, Alpha: c19lib.FullAlphabet(), MaxLen: 3},
+			{Label: "v3/default+v6/frr8.1 full<=3 cap==len", Entries: tightRep, Alpha: c19lib.FullAlphabet(), MaxLen: 3},
 			{Label: "all full<=1", Entries: entries, Alpha: c19lib.FullAlphabet(), MaxLen: 1},
 			{Label: "all-but-nexthop-list full<=2", Entries: wide, Alpha: c19lib.FullAlphabet(), MaxLen: 2},
 			{Label: "all-but-nexthop-list boundary<=4", Entries: wide, Alpha: c19lib.Boundary, MaxLen: 4},
